@@ -220,6 +220,10 @@ structure NodeType where
   dfa           : Array DfaState      -- state 0 is the start state
   markSet       : Option (List MarkTypeId)   -- `none` = all marks allowed
   attrs         : List AttrDecl
+  -- `bool(spec.get("definingAsContext"))` / `bool(spec.get("definingForContent"))` (read by
+  -- `Transform.replace_range` only; last with defaults so that older record literals stay valid)
+  definingAsContext  : Bool := false
+  definingForContent : Bool := false
 deriving Repr, Inhabited
 
 structure MarkType where
